@@ -276,6 +276,105 @@ fn gen_exhaustive2(out: &mut Out) {
     }
 }
 
+/// a formula over the given atoms only
+fn gen_over(r: &mut Rng, atoms: &[usize], d: u32) -> F {
+    fn ren(f: F, atoms: &[usize]) -> F {
+        let b = |x: Box<F>| Box::new(ren(*x, atoms));
+        match f {
+            F::Atom(i) => F::Atom(atoms[i % atoms.len()]),
+            F::Not(a) => F::Not(b(a)),
+            F::And(x, y) => F::And(b(x), b(y)),
+            F::Or(x, y) => F::Or(b(x), b(y)),
+            F::Imp(x, y) => F::Imp(b(x), b(y)),
+            F::Xor(x, y) => F::Xor(b(x), b(y)),
+            F::Iff(x, y) => F::Iff(b(x), b(y)),
+            c => c,
+        }
+    }
+    if atoms.is_empty() {
+        return if r.bool() { F::Top } else { F::Bot };
+    }
+    let f = gen_f(r, atoms.len(), d);
+    ren(f, atoms)
+}
+
+/// WIDE frameworks (more statements than a machine word has bits) whose grounded interpretation
+/// decides almost everything: a small undecided core (2-4 statements, at random positions, i.e.
+/// also beyond index 63) plus up to two dependents, all other statements are decided by grounding
+/// in layers (constants, then formulas over statements of earlier layers). The complete and stable
+/// enumerations stay small (<= 3^6 candidates) although n is large.
+pub fn gen_wide(r: &mut Rng, n: usize) -> Vec<F> {
+    let mut perm: Vec<usize> = (0..n).collect();
+    for i in (1..n).rev() {
+        perm.swap(i, r.usize(i + 1));
+    }
+    let c = r.range(2, 4).min(n);
+    let d = r.range(0, 2).min(n - c);
+    let mut acs: Vec<F> = vec![F::Bot; n];
+    let mut decided: Vec<usize> = Vec::new();
+    for k in (c + d)..n {
+        let idx = perm[k];
+        acs[idx] = if decided.len() < 3 || r.chance(1, 4) {
+            if r.bool() { F::Top } else { F::Bot }
+        } else {
+            // a few atoms of earlier layers
+            let m = r.range(1, 3);
+            let atoms: Vec<usize> = (0..m).map(|_| decided[r.usize(decided.len())]).collect();
+            gen_over(r, &atoms, 2)
+        };
+        decided.push(idx);
+    }
+    let core: Vec<usize> = perm[..c].to_vec();
+    for &idx in &core {
+        let mut atoms = core.clone();
+        for _ in 0..r.range(0, 3) {
+            if !decided.is_empty() {
+                atoms.push(decided[r.usize(decided.len())]);
+            }
+        }
+        // mostly shapes that stay undecided under grounding (mutual attack, self support, parity),
+        // possibly combined with a decided statement
+        let other = core[r.usize(c)];
+        let third = core[r.usize(c)];
+        let at = |i: usize| Box::new(F::Atom(i));
+        let base = match r.below(9) {
+            0 | 1 => F::Not(at(other)),
+            2 => F::Atom(idx),
+            3 => F::Atom(other),
+            4 => F::Xor(at(other), at(third)),
+            5 => F::Iff(at(other), Box::new(F::Not(at(third)))),
+            6 => F::And(Box::new(F::Not(at(other))), at(third)),
+            _ => gen_over(r, &atoms, 3),
+        };
+        acs[idx] = if !decided.is_empty() && r.chance(1, 2) {
+            let dec = at(decided[r.usize(decided.len())]);
+            match r.below(4) {
+                0 => F::And(Box::new(base), dec),
+                1 => F::Or(Box::new(base), dec),
+                2 => F::And(Box::new(base), Box::new(F::Not(dec))),
+                _ => F::Or(Box::new(base), Box::new(F::Not(dec))),
+            }
+        } else {
+            base
+        };
+    }
+    for k in c..(c + d) {
+        let idx = perm[k];
+        let me = F::Atom(core[r.usize(c)]);
+        let other = if decided.is_empty() || r.chance(1, 3) { F::Atom(core[r.usize(c)]) } else { F::Atom(decided[r.usize(decided.len())]) };
+        let (a, b) = (Box::new(me), Box::new(other));
+        acs[idx] = match r.below(6) {
+            0 => F::And(a, b),
+            1 => F::Or(a, b),
+            2 => F::Xor(a, b),
+            3 => F::Imp(a, b),
+            4 => F::Not(a),
+            _ => F::Iff(a, b),
+        };
+    }
+    acs
+}
+
 pub fn gen(r: &mut Rng, cases: usize, size: usize, extra: &[String], out: &mut Out) {
     let maxn = if size == 0 { 6 } else { size };
     let profile = extra.first().map(|s| s.as_str()).unwrap_or("sem");
@@ -285,7 +384,24 @@ pub fn gen(r: &mut Rng, cases: usize, size: usize, extra: &[String], out: &mut O
     }
     for case in 0..cases {
         out.line(&format!("case adf-{profile}-{case}"));
-        let (n, acs): (usize, Vec<F>) = if profile == "large" {
+        let (n, acs): (usize, Vec<F>) = if profile == "wideund" {
+            // many UNDECIDED statements (self support, mutual attack, parity): the enumerations are
+            // astronomically large, only their first element is asked for
+            let n = r.range(30.min(maxn), maxn);
+            let at = |i: usize| Box::new(F::Atom(i));
+            let acs = (0..n)
+                .map(|i| match r.below(5) {
+                    0 | 1 => F::Atom(i),
+                    2 => F::Not(at(r.usize(n))),
+                    3 => F::Xor(at(i), at(r.usize(n))),
+                    _ => if r.bool() { F::Top } else { F::Not(at(i)) },
+                })
+                .collect();
+            (n, acs)
+        } else if profile == "wide" {
+            let n = if r.chance(3, 4) { r.range(65.min(maxn), maxn) } else { r.range(8.min(maxn), maxn) };
+            (n, gen_wide(r, n))
+        } else if profile == "large" {
             let n = r.range(maxn / 2, maxn);
             (n, (0..n).map(|_| { let d = r.range(5, 11) as u32; gen_f(r, n, d) }).collect())
         } else if case % 97 == 0 && profile != "hist" {
@@ -372,6 +488,39 @@ pub fn gen(r: &mut Rng, cases: usize, size: usize, extra: &[String], out: &mut O
                 }
                 out.line(&format!("ngch native {} stable", HEUS[r.usize(3)]));
                 out.line(&format!("ngch native Script:{} twoval", r.below(1 << 30)));
+                out.line("adump native");
+            }
+            "wideund" => {
+                for p in ["native", "hybrid", "bio"] {
+                    out.line(&format!("build {p}"));
+                    out.line(&format!("grounded {p}"));
+                }
+                for p in ["native", "hybrid", "bio"] {
+                    out.line(&format!("completefirst {p}"));
+                }
+                out.line("adump native");
+            }
+            "wide" => {
+                for p in ["native", "hybrid", "hybridpre", "bio"] {
+                    out.line(&format!("build {p}"));
+                }
+                let mut reqs: Vec<String> = Vec::new();
+                for p in ["native", "hybrid", "hybridpre", "bio"] {
+                    reqs.push(format!("grounded {p}"));
+                    reqs.push(format!("complete {p}"));
+                    reqs.push(format!("stable {p}"));
+                }
+                reqs.push("stablepre native".into());
+                reqs.push("stmca native".into());
+                reqs.push("stmcb hybrid".into());
+                reqs.push("ng native Simple stable".into());
+                reqs.push("ng hybrid MinModMinPathsMaxVarImp twoval".into());
+                for i in (1..reqs.len()).rev() {
+                    reqs.swap(i, r.usize(i + 1));
+                }
+                for q in reqs {
+                    out.line(&q);
+                }
                 out.line("adump native");
             }
             "large" => {
@@ -926,6 +1075,27 @@ impl Exec {
                 true
             }
             "memocheckn" => true,
+            "completefirst" if ws.len() == 2 => {
+                out.line(l);
+                out.flush();
+                // on an object of its own (the lazily evaluated filter leaves nodes behind)
+                let p = ws[1].to_string();
+                let r = catch_unwind(AssertUnwindSafe(|| -> Option<String> {
+                    let parser = self.parser()?;
+                    let first = match p.as_str() {
+                        "bio" => BdAdf::from_parser(parser).complete().next(),
+                        "hybrid" => BdAdf::from_parser(parser).hybrid_step_opt(false).complete().next(),
+                        _ => Adf::from_parser(parser).complete().next(),
+                    };
+                    Some(first.map(|v| tfu(&v)).unwrap_or("-".into()))
+                }));
+                match r {
+                    Ok(Some(s)) => out.line(&format!("~ first={s}")),
+                    Ok(None) => out.line("~ bad-request"),
+                    Err(_) => out.line("~ panic"),
+                }
+                true
+            }
             "randrepro" if ws.len() == 5 => {
                 out.line(l);
                 out.flush();
